@@ -9,6 +9,8 @@ from ..core import call_attr, calls_in, dotted, kwarg, norm, slice_parts, text, 
 from . import c09
 
 EXPLANATION = [
+    'C07.reset-before-sink: LeCreditBasedChannel.on_pdu empties its reassembly buffer before the completed SDU is handed to the sink on every path (a raising sink does not cost the next SDU).',
+    'C07.allocator-scan: every CID a find_free_* allocator returns was individually tested against the table it was given, or comes from the scanning allocator it delegates to (shared with C09).',
     'C07.index-at-response: no method of ChannelManager enters a channel into le_coc_channels after an await: the destination-CID index is filled while the connection request / response is being processed, so credits sent right behind a response find their channel.',
     'C07.pdu-forwarded: in ChannelManager.on_pdu every path on which the destination channel was found hands the PDU to channel.on_pdu: the dispatcher applies no size filter (MPS is a per-direction limit that the channel itself accounts for together with the credits).',
     'C07.identifier-range: (shared with C09.identifier-range) ChannelManager.next_identifier stays within 1..255 by induction over its paths: the credit frames of a long transfer never carry an identifier that does not fit the one-byte field.',
@@ -445,7 +447,19 @@ def index_at_response(ctx, rule='C07.index-at-response'):
     R.check(n >= 2, rule, 'bumble.l2cap.ChannelManager | inserts into le_coc_channels', f'{n} insert sites', f'only {n} insert sites found')
 
 
+def allocator_scan_rule(ctx):
+    from .c09 import allocator_scan
+    allocator_scan(ctx, 'C07.allocator-scan')
+
+
+def reset_before_sink(ctx):
+    from ..generic_rules import reset_before_handoff
+    reset_before_handoff(ctx, 'C07.reset-before-sink', 'bumble.l2cap.LeCreditBasedChannel.on_pdu', 'self.in_sdu', 'self.sink')
+
+
 RULES = [
+    ('C07.reset-before-sink', reset_before_sink),
+    ('C07.allocator-scan', allocator_scan_rule),
     ('C07.index-at-response', index_at_response),
     ('C07.pdu-forwarded', pdu_forwarded),
     ('C07.identifier-range', identifier_range_rule),
